@@ -8,7 +8,7 @@ Tie (B), differential, trace level:
     every step.
   * names: generated derivations with confusable names; the string, the derivation (as an EvalSpec.expr term) and the collections
     the implementation reported go to Coq, which checks  lex (strip s) = render e  (the hypothesis of C10_names_exact), the tree
-    and  enames e = reported.
+    and  enames e = scan_names (tokens) = reported.
 Oracle (independent of the model): outcome of the n-th call == outcome of the same call on a freshly constructed parser;
 objects handed out earlier still report what they reported; reported collections == the name sets known by construction of
 the derivation (parse(s).*_used, evaluator(s, ...)[1], get_used_vars, DependentSampler's inferred depends).
@@ -553,7 +553,7 @@ def show_call(c):
     return '%s(%r%s)' % ('parse' if c[0] == 'parse' else 'evaluator', c[1], '' if c[2] is None else ', max_array_dim=%d' % c[2])
 
 
-def check_histories(res, label, seqs, results, stats):
+def check_histories(res, seqs, results, stats):
     """the fresh-vs-shared oracle on every call of every history"""
     todo = sorted(set(c for sq in seqs for c in sq if c not in _FRESH), key=repr)
     if len(todo) > 64:          # each distinct call once on a parser constructed for it alone, in the worker pool
@@ -597,12 +597,13 @@ def histories(ctx, res, rng, stats):
         for t in itertools.product(ALPHABET, repeat=3):
             seqs.append([(rng.choice(['parse', 'eval']), s, None) for s in t])
     if ctx['tier'] == 'thorough':
-        n4 = 60000
-        for _ in range(n4):
-            seqs.append([rng.choice(calls) for _ in range(4)])
+        # every quadruple of strings, two parse/evaluate patterns drawn per quadruple
+        for t in itertools.product(ALPHABET, repeat=4):
+            for _ in range(2):
+                seqs.append([(rng.choice(['parse', 'eval']), s, None) for s in t])
     results = run_many(seqs)
     seqs, results = drop_unobserved(seqs, results, stats)
-    check_histories(res, 'exhaustive', seqs, results, stats)
+    check_histories(res, seqs, results, stats)
     def on_codes(codes, errors):
         res.corr_errors += errors
         declined = 0
@@ -985,7 +986,7 @@ Definition names_case (c : str * expr * sexp * names) : Z :=
                if negb (toks_eqb ts (render e)) then 1
                else match spec_parse s with
                     | VTree t l => if negb (sexp_eqb (to_sexp t) x && sexp_eqb (to_sexp (flatten e)) x) then 2
-                                   else if names_same l nm && names_same (enames e) nm then 0 else 3
+                                   else if names_same l nm && names_same (enames e) nm && names_same (scan_names ts) nm then 0 else 3
                     | VErr _ => 2
                     end
            | _, _ => 1
@@ -1068,7 +1069,7 @@ def random_histories(ctx, res, rng, stats, rendered):
         seqs.append(sq)
     results = run_many(seqs)
     seqs, results = drop_unobserved(seqs, results, stats)
-    check_histories(res, 'random', seqs, results, stats)
+    check_histories(res, seqs, results, stats)
     def on_codes(codes, errors):
         res.corr_errors += errors
         declined = 0
@@ -1174,7 +1175,12 @@ def run(ctx):
     consumers(ctx, res, rng2, stats, with_names)
     res.exhaustive = True
     res.distribution = {
-        'exhaustive_sequences': stats.get('exhaustive_sequences'), 'exhaustive_len3_all_call_triples': stats.get('exhaustive_len3_full'),
+        'exhaustive_sequences': stats.get('exhaustive_sequences'),
+        'exhaustive_scope': ('all call sequences of length <= 2 over %d calls; ' % (len(alphabet_calls()) + len(EXTRA_CALLS))) +
+                            ('all 24^3 call triples' if stats.get('exhaustive_len3_full') else
+                             'all 12^3 string triples with a drawn parse/evaluate pattern') +
+                            ('; all 12^4 string quadruples with two drawn patterns each' if ctx['tier'] == 'thorough' else ''),
+        'sequences_not_observed_within_300s': stats.get('sequences_not_observed_within_300s', 0),
         'alphabet': ALPHABET, 'calls_in_alphabet': len(alphabet_calls()) + len(EXTRA_CALLS),
         'random_sequences': stats.get('random_sequences'), 'random_calls': stats.get('random_calls'),
         'outcome_kinds': dict(stats['outcomes']),
